@@ -17,7 +17,7 @@ ASSUMPTIONS = ['the M5 model is the only witness (no second XSD implementation i
                'compared fields always have the same primitive type (cross-primitive equality is not generated)',
                'date values use no zone or UTC only; decimal literals avoid the forms "1." and ".5"',
                'structure validity of every instance is guaranteed by a permissive content model, so every reported error is an identity-constraint error']
-BUDGET = {'quick': 330, 'thorough': 4200}
+BUDGET = {'quick': 260, 'thorough': 2000}
 WALLCAP = {'quick': 420, 'thorough': 3000}
 
 VALID = C08.VALID; VNAME = C08.VNAME; XNAME = C08.XNAME
@@ -82,7 +82,7 @@ def known_class(case, root):
             if g_in_g(c, inside or c.name == 'g'): return True
         return False
     for ic in case['ics']:
-        if ic.on == 'g' and any(p['desc'] for p in ic.selector) and any(f[0]['attr'] is None for f in ic.fields) and g_in_g(root):
+        if ic.on == 'g' and any(p['desc'] for p in ic.selector) and any(f[0]['attr'] is None or [x for x in f[0]['steps'] if x != '.'] for f in ic.fields) and g_in_g(root):
             return NESTED_ELEM_FIELD      # same constraint active in nested scopes + element-valued field: spurious IC_FieldMultipleMatch
     for ic in case['ics']:
         for p in ic.selector:
@@ -180,6 +180,9 @@ def worker(ctx):
         def prop(c, fn=fn, name=name):
             try:
                 fn(c)
+            except PropertyFailure:
+                if os.environ.get('VERIF_STOP_AFTER_FAIL'): ctx.deadline = 0      # sensitivity runs: first detection is enough, skip shrinking
+                raise
             except xv.ExecutorDied as e:
                 raise PropertyFailure({'lane': 'died', 'schemas': {'s.xsd': im.render_schema(c['tns'], c['T'], c['ics'], c['style'])}, 'cfg': c['cfg'],
                                        'doc': render_doc(c, c['root'])}, 'executor died rc=%s\n%s' % (e.rc, e.stderr[-3000:]))
